@@ -1,7 +1,7 @@
 (** C03 — the clamp lemmas of Clamp.v lifted to ALL finite sequences of update requests applied to a fresh attempt
-    row ([reach rs = fold_left clamp_apply rs fresh]), the refutations of the unguarded statements, and the bridge to
-    the database model: every `UPDATE attempts` the model's step issues is a [clamp_apply] of one of the four request
-    shapes. *)
+    row ([reach rs = fold_left clamp_apply rs fresh]), the regression witness for the trigger before migration 124, and
+    the bridge to the database model: every `UPDATE attempts` the model's step issues is a [clamp_apply] of one of the
+    four request shapes. *)
 From HailV Require Import Common.Prelude BatchDB.Model BatchDB.Clamp.
 From RecordUpdate Require Import RecordSet.
 Import RecordSetNotations.
@@ -31,24 +31,63 @@ Lemma seq_rollup_le_end rs r e : t_rollup (reach rs) = Some r -> t_end (reach rs
 Proof. destruct (reach_inv rs) as [H _]; apply H. Qed.
 
 Lemma seq_end_iff_reason rs : t_end (reach rs) = None <-> t_reason (reach rs) = None.
-Proof. destruct (reach_inv rs) as [_ H]; exact H. Qed.
+Proof. destruct (reach_inv rs) as (_ & H & _); exact H. Qed.
 
-(** a report that marks an activation timeout bills nothing (whatever the row was) *)
-Lemma timeout_bills_nothing o r : request_is_timeout r = true -> billed4 (clamp_apply o r) = 0.
+(** an attempt that carries the reason activation_timeout has no start and bills nothing — after ANY sequence *)
+Lemma seq_timeout_bills_nothing rs : t_reason (reach rs) = Some REASON_ACTIVATION_TIMEOUT ->
+  t_start (reach rs) = None /\ billed4 (reach rs) = 0.
+Proof. apply timeout_row_bills_nothing, reach_inv. Qed.
+
+(** a report that marks an activation timeout bills nothing *)
+Lemma seq_marks_timeout_bills_nothing rs r : marks_timeout (reach rs) r -> billed4 (clamp_apply (reach rs) r) = 0.
+Proof. intros [_ H]. apply timeout_bills_nothing, H. Qed.
+
+(** ... and a timed-out attempt stays unbilled whatever is reported later (the end can only move earlier, C03_end_only_earlier,
+    but as long as the reason stays activation_timeout nothing is billed) *)
+Lemma seq_timeout_request_on_open_attempt rs r :
+  t_reason (reach rs) = None -> request_is_timeout r = true ->
+  t_reason (clamp_apply (reach rs) r) = Some REASON_ACTIVATION_TIMEOUT /\ billed4 (clamp_apply (reach rs) r) = 0.
 Proof.
-  open_times o; destruct r as [t | st e rs | t rs | t]; try destruct st as [st|];
-    unfold request_is_timeout; unfold_clamp; cbn; intros Ht; try discriminate; rewrite Ht; cbn; ifs; reflexivity.
+  intros Ho Hr. destruct (timeout_request_marks _ _ Ho Hr) as [_ H]. split; [exact H | apply timeout_bills_nothing, H].
 Qed.
 
-(** (3) guarded monotonicity *)
+(** (3) monotonicity, full statement *)
 Lemma seq_monotone rs r :
-  t_reason (reach rs) <> Some REASON_ACTIVATION_TIMEOUT ->
   billed4 (clamp_apply (reach rs) r) < billed4 (reach rs) ->
-  request_is_timeout r = true \/
+  marks_timeout (reach rs) r \/
   (exists e ro, t_end (clamp_apply (reach rs) r) = Some e /\ t_rollup (reach rs) = Some ro /\ e < ro).
 Proof. apply billed4_monotone, reach_inv. Qed.
 
-(** the guard holds as long as no report marked an activation timeout *)
+(** (4) the start only moves earlier, full statement *)
+Lemma seq_start_only_earlier rs r s :
+  t_start (reach rs) = Some s ->
+  match t_start (clamp_apply (reach rs) r) with
+  | Some s' => s' <= s
+  | None => marks_timeout (reach rs) r
+  end.
+Proof. apply start_only_earlier, reach_inv. Qed.
+
+(** ... over any number of further reports none of which carries the timeout reason *)
+Lemma start_only_earlier_many rs2 : forall o s, AInv o -> t_start o = Some s ->
+  forallb (fun r => negb (request_is_timeout r)) rs2 = true ->
+  exists s', t_start (fold_left clamp_apply rs2 o) = Some s' /\ s' <= s.
+Proof.
+  induction rs2 as [|r rs2 IH]; intros o s Ho Hs Hall; cbn [fold_left].
+  - exists s; split; [exact Hs | lia].
+  - cbn [forallb] in Hall. apply andb_true_iff in Hall. destruct Hall as [Hr Hall]. apply negb_true_iff in Hr.
+    pose proof (start_only_earlier o r s Ho Hs) as H.
+    destruct (t_start (clamp_apply o r)) as [s1|] eqn:E.
+    + destruct (IH (clamp_apply o r) s1 (clamp_inv_step o r Ho) E Hall) as (s' & Hs' & Hle).
+      exists s'; split; [exact Hs' | lia].
+    + destruct H as [H _]. congruence.
+Qed.
+
+Lemma seq_start_only_earlier_ever rs1 rs2 s : t_start (reach rs1) = Some s ->
+  forallb (fun r => negb (request_is_timeout r)) rs2 = true ->
+  exists s', t_start (reach (rs1 ++ rs2)) = Some s' /\ s' <= s.
+Proof. intros Hs Hall; rewrite reach_app; apply start_only_earlier_many; [apply reach_inv | exact Hs | exact Hall]. Qed.
+
+(** the reason activation_timeout only ever comes from a request that carries it *)
 Lemma reason_not_timeout_step o r :
   t_reason o <> Some REASON_ACTIVATION_TIMEOUT -> request_is_timeout r = false ->
   t_reason (clamp_apply o r) <> Some REASON_ACTIVATION_TIMEOUT.
@@ -69,15 +108,6 @@ Proof.
     rewrite reach_snoc; apply reason_not_timeout_step; [apply IH, H1 | exact H2].
 Qed.
 
-(** (4) guarded: the start only moves earlier *)
-Lemma seq_start_only_earlier rs r s :
-  t_reason (reach rs) <> Some REASON_ACTIVATION_TIMEOUT -> t_start (reach rs) = Some s ->
-  match t_start (clamp_apply (reach rs) r) with
-  | Some s' => s' <= s
-  | None => request_is_timeout r = true
-  end.
-Proof. apply start_only_earlier. Qed.
-
 (** (5) once there is an end reason: one step, and any number of further steps *)
 Lemma seq_end_only_earlier rs r : t_reason (reach rs) <> None ->
   exists e e', t_end (reach rs) = Some e /\ t_end (clamp_apply (reach rs) r) = Some e' /\ e' <= e
@@ -88,6 +118,12 @@ Proof.
     exists e, e'; repeat split; assumption.
   - exfalso; apply Hr, seq_end_iff_reason, He.
 Qed.
+
+(** ... and the end time and reason are exactly kept unless the end is replaced by a strictly earlier one *)
+Lemma seq_end_kept_or_earlier rs r e : t_end (reach rs) = Some e ->
+  (t_end (clamp_apply (reach rs) r) = Some e /\ t_reason (clamp_apply (reach rs) r) = t_reason (reach rs)) \/
+  (exists e', t_end (clamp_apply (reach rs) r) = Some e' /\ e' < e).
+Proof. apply end_kept_or_earlier, reach_inv. Qed.
 
 Lemma end_only_earlier_many rs2 : forall o e, AInv o -> t_end o = Some e ->
   exists e', t_end (fold_left clamp_apply rs2 o) = Some e' /\ e' <= e.
@@ -103,31 +139,33 @@ Lemma seq_end_only_earlier_ever rs1 rs2 e : t_end (reach rs1) = Some e ->
   exists e', t_end (reach (rs1 ++ rs2)) = Some e' /\ e' <= e.
 Proof. intros He; rewrite reach_app; apply end_only_earlier_many; [apply reach_inv | exact He]. Qed.
 
-(** Refutations of the unguarded forms (the trigger as it stands; see Clamp.refute_history). *)
-Lemma seq_monotone_refuted :
-  exists rs r, billed4 (clamp_apply (reach rs) r) < billed4 (reach rs) /\ request_is_timeout r = false /\
-    ~ (exists e ro, t_end (clamp_apply (reach rs) r) = Some e /\ t_rollup (reach rs) = Some ro /\ e < ro).
-Proof.
-  exists refute_history, (RHeartbeat 11). vm_compute. split; [reflexivity|]. split; [reflexivity|].
-  intros (e & ro & He & Hr & Hlt). injection He as <-; injection Hr as <-. discriminate Hlt.
-Qed.
+(** Regression witness: the trigger as it stood before migration 124 (Clamp.clamp4_unfixed) refutes (3) and (4) and bills
+    a timed-out attempt, on a sequence of the four request shapes applied to a fresh row. *)
+Definition reach_unfixed (rs : list request) : times := fold_left clamp_apply_unfixed rs fresh.
 
-Lemma seq_start_only_earlier_refuted :
-  exists rs r s, t_start (reach rs) = Some s /\ request_is_timeout r = false /\ t_start (clamp_apply (reach rs) r) = None.
-Proof. exists refute_history, (RHeartbeat 11), 3. vm_compute. repeat split. Qed.
+Lemma seq_unfixed_trigger_refuted :
+  exists rs r s,
+    t_reason (reach_unfixed rs) = Some REASON_ACTIVATION_TIMEOUT /\ 0 < billed4 (reach_unfixed rs) /\
+    billed4 (clamp_apply_unfixed (reach_unfixed rs) r) < billed4 (reach_unfixed rs) /\ request_is_timeout r = false /\
+    ~ (exists e ro, t_end (clamp_apply_unfixed (reach_unfixed rs) r) = Some e /\ t_rollup (reach_unfixed rs) = Some ro /\ e < ro) /\
+    t_start (reach_unfixed rs) = Some s /\ t_start (clamp_apply_unfixed (reach_unfixed rs) r) = None.
+Proof. exists refute_history, (RHeartbeat 11), 3. exact unfixed_trigger_refuted. Qed.
 
-(** An attempt that carries the reason activation_timeout can nevertheless have billed time. *)
-Lemma timeout_attempt_billed :
-  exists rs, t_reason (reach rs) = Some REASON_ACTIVATION_TIMEOUT /\ 0 < billed4 (reach rs).
-Proof. exists refute_history. vm_compute. split; reflexivity. Qed.
-
-(** Non-vacuity of the guarded theorems: a sequence that satisfies their hypotheses and triggers their conclusions. *)
+(** Non-vacuity: sequences that satisfy the hypotheses of the theorems and trigger their conclusions. *)
 Example seq_monotone_example :
   let rs := [RStarted 5; RHeartbeat 10] in
-  t_reason (reach rs) <> Some REASON_ACTIVATION_TIMEOUT /\
   billed4 (clamp_apply (reach rs) (REnded 8 2)) < billed4 (reach rs) /\
-  t_end (clamp_apply (reach rs) (REnded 8 2)) = Some 8 /\ t_rollup (reach rs) = Some 10.
-Proof. vm_compute. repeat split; discriminate. Qed.
+  t_end (clamp_apply (reach rs) (REnded 8 2)) = Some 8 /\ t_rollup (reach rs) = Some 10 /\
+  billed4 (clamp_apply (reach rs) (REnded 12 REASON_ACTIVATION_TIMEOUT)) < billed4 (reach rs) /\
+  marks_timeout (reach rs) (REnded 12 REASON_ACTIVATION_TIMEOUT).
+Proof. vm_compute. repeat split. Qed.
+
+(** a timeout request that arrives after the attempt has ended (not earlier) is ignored: it does not mark the timeout and
+    the billed time stays *)
+Example seq_late_timeout_example :
+  let rs := [RStarted 5; REnded 10 2] in
+  clamp_apply (reach rs) (REnded 12 REASON_ACTIVATION_TIMEOUT) = reach rs /\ billed4 (reach rs) = 5.
+Proof. vm_compute. split; reflexivity. Qed.
 
 Example seq_end_example :
   let rs := [RStarted 5; REnded 20 2] in
